@@ -12,7 +12,7 @@ def nontrivial(beh):
 
 
 def gen_consts(steps, **over):
-    c = dict(InCalls=[('ia1', 1)], OutAliases=['oa1', 'oa2'], Vals=['v1', 'v2'], Excs=['E1'],
+    c = dict(InCalls=[('ia1', 1), ('ia2', 1)], OutAliases=['oa1', 'oa2'], Vals=['v1', 'v2'], Excs=['E1'],
              OutResults=[('val', 'v1'), ('exc', 'E1')], Ends=['ret', 'raise'], Classes=[K('K1')],
              MaxSteps=steps, MaxRuns=2, MaxRecs=1, Modes=['same', 'edit'], EditKinds=EDITS)
     c.update(over)
@@ -38,7 +38,7 @@ def run(rep, tier, seed):
     try:
         if tier == 'quick':
             chk.check('chk', gen_consts(3), invariants=INVS)
-            chk.generate('gen2', gen_consts(2), cassettes=('memory', 'file'), n_conc=2, sample=2500, cap=4000)
+            chk.generate('gen2', gen_consts(2), cassettes=('memory', 'file'), n_conc=1, sample=2500, cap=4000)
             chk.generate('gen3', gen_consts(3, InCalls=[], OutAliases=['oa1'], OutResults=[('val', 'v1')], Ends=['ret']),
                          cassettes=('memory',), n_conc=1, sample=3000, cap=5000)
             chk.generate('afterfail', gen_consts(1, MaxPSteps=2, MaxRuns=3, Modes=['free'], InOpts=[opts()],
